@@ -49,6 +49,12 @@ mod error;
 mod incomplete_transfer;
 pub mod receiver;
 mod receiver_link;
+#[cfg(feature = "verif-hooks")]
+pub(crate) mod verif_reexports {
+    pub(crate) use super::receiver_link::{
+        count_number_of_sections_and_offset, verif_consecutive_chunk_indices,
+    };
+}
 pub(crate) mod resumption;
 pub mod sender;
 mod sender_link;
